@@ -1,83 +1,194 @@
-(* Proofs/Validate_table.v — C13 obligations the kernel evaluates on the REGENERATED tables *)
+(* Proofs/Validate_table.v — C13 obligations the kernel evaluates on the REGENERATED tables
+   (all rows, no exception list), and what they give for every row *)
 From PV Require Import Lib.Base Model.Schema Model.Validate Gen.SchemaTables Proofs.Schema_lemmas Proofs.Validate_lemmas.
 Open Scope N_scope.
 
-Definition pair_mem (p : N * N) (l : list (N * N)) : bool :=
-  existsb (fun q => (fst p =? fst q) && (snd p =? snd q)) l.
-
-Lemma unresolved_known :
-  forallb (fun p => pair_mem p known_unresolved_attr) (unresolved_attr_types validator_keys actual_schema) = true.
+Lemma unresolved_none : unresolved_attr_types validator_keys actual_schema = [].
 Proof. vm_compute. reflexivity. Qed.
-Lemma enums_known : forallb (fun c => memN c known_unenforced_enum) (unenforced_enums actual_schema) = true.
+Lemma vtypes_none : unresolved_vtypes validator_keys actual_schema = [].
 Proof. vm_compute. reflexivity. Qed.
-Lemma vtypes_known : forallb (fun c => memN c known_unresolved_vtype) (unresolved_vtypes validator_keys actual_schema) = true.
+Lemma enums_none : unenforced_enums actual_schema = [].
 Proof. vm_compute. reflexivity. Qed.
 Lemma overrides_known : unknown_overrides actual_schema = [].
 Proof. vm_compute. reflexivity. Qed.
 Lemma av_plain : av_rows_plain actual_schema = true.
 Proof. vm_compute. reflexivity. Qed.
 
-Lemma types_resolve r a :
-  In r actual_schema -> In a (k_attrs r) -> pair_mem (k_id r, a_xml a) known_unresolved_attr = false ->
-  match a_type a with
-  | TN t => exists k, resolve validator_keys t = Some k
-  | TC _ => True
-  | TNone => False
-  end.
+Lemma string_key : mem_str T_STRING validator_keys = true.
+Proof. vm_compute. reflexivity. Qed.
+
+Lemma flat_map_nil_inv {A B} (f : A -> list B) l x : flat_map f l = [] -> In x l -> f x = [].
 Proof.
-  intros Hr Ha Hk.
-  assert (Hin : forall p, In p (unresolved_attr_types validator_keys actual_schema) -> pair_mem p known_unresolved_attr = true).
-  { pose proof unresolved_known as H. rewrite forallb_forall in H. exact H. }
-  assert (Hnot : ~ In (k_id r, a_xml a) (unresolved_attr_types validator_keys actual_schema)).
-  { intros Hi. rewrite (Hin _ Hi) in Hk. discriminate. }
-  destruct (a_type a) as [t|c|] eqn:Et; [|exact Logic.I|].
-  - destruct (resolve validator_keys t) as [k|] eqn:Er; [exists k; reflexivity|].
-    exfalso. apply Hnot. unfold unresolved_attr_types. apply in_flat_map. exists r. split; [exact Hr|].
-    apply in_flat_map. exists a. split; [exact Ha|]. rewrite Et, Er. left; reflexivity.
-  - apply Hnot. unfold unresolved_attr_types. apply in_flat_map. exists r. split; [exact Hr|].
-    apply in_flat_map. exists a. split; [exact Ha|]. rewrite Et. left; reflexivity.
+  induction l as [|y l IH]; intros H Hin; [destruct Hin|].
+  cbn [flat_map] in H. apply app_eq_nil in H as [H1 H2]. destruct Hin as [->|Hin]; [exact H1|apply IH; assumption].
 Qed.
 
-Lemma enumerations_enforced r vt en :
-  In r actual_schema -> k_vtype r = Some vt -> v_enum vt = Some en -> ~ In (k_id r) known_unenforced_enum ->
-  str_eqb (v_base vt) T_STRING = true /\ v_maxlen vt = None.
+(* what type_resolves says *)
+Lemma type_resolves_spec keys t :
+  type_resolves keys t = true ->
+  exists k, resolve keys t = Some k /\
+    (mem_str (lower_ascii (local_name t)) XSD_BUILTIN = true -> lower_ascii k = lower_ascii (local_name t)) /\
+    (mem_str (lower_ascii (local_name t)) XSD_BUILTIN = false -> k = T_STRING).
 Proof.
-  intros Hr Hv He Hk.
-  assert (Hnot : ~ In (k_id r) (unenforced_enums actual_schema)).
-  { intros Hi. apply Hk. pose proof enums_known as H. rewrite forallb_forall in H. apply memN_In, H, Hi. }
-  destruct (str_eqb (v_base vt) T_STRING) eqn:Eb; destruct (v_maxlen vt) as [n|] eqn:Em; try (split; reflexivity);
-    exfalso; apply Hnot; unfold unenforced_enums; apply in_flat_map; exists r; (split; [exact Hr|]);
-    rewrite Hv, He, Eb, Em; left; reflexivity.
+  unfold type_resolves. destruct (resolve keys t) as [k|]; [|discriminate].
+  intros H. exists k. split; [reflexivity|].
+  destruct (mem_str (lower_ascii (local_name t)) XSD_BUILTIN); split; intros E; try discriminate; apply str_eqb_eq; exact H.
+Qed.
+
+(* every declared attribute type of every class: a type name resolves - to the validator of
+   that very XSD built-in type when it names one - and a value-type class exists *)
+Lemma types_resolve r a :
+  In r actual_schema -> In a (k_attrs r) ->
+  match a_type a with
+  | TN t => type_resolves validator_keys t = true
+  | TNone => type_resolves validator_keys [] = true
+  | TC c => exists rt, find_row actual_schema c = Some rt
+  end.
+Proof.
+  intros Hr Ha.
+  pose proof (flat_map_nil_inv _ _ r unresolved_none Hr) as H1. cbv beta in H1.
+  pose proof (flat_map_nil_inv _ _ a H1 Ha) as H2. cbv beta in H2.
+  destruct (a_type a) as [t|c|].
+  - destruct (type_resolves validator_keys t); [reflexivity|discriminate].
+  - destruct (find_row actual_schema c) as [rt|]; [exists rt; reflexivity|discriminate].
+  - destruct (type_resolves validator_keys []); [reflexivity|discriminate].
 Qed.
 
 Lemma value_types_resolve r vt :
   In r actual_schema -> k_vtype r = Some vt -> v_maxlen vt = None -> v_enum vt = None ->
-  ~ In (k_id r) known_unresolved_vtype ->
   str_eqb (v_base vt) T_STRING = true \/
-  (str_eqb (v_base vt) T_LIST = true /\ exists m k, v_member vt = Some m /\ resolve validator_keys m = Some k) \/
-  exists k, resolve validator_keys (v_base vt) = Some k.
+  (str_eqb (v_base vt) T_LIST = true /\ exists m, v_member vt = Some m /\ type_resolves validator_keys m = true) \/
+  type_resolves validator_keys (v_base vt) = true.
 Proof.
-  intros Hr Hv Hm He Hk.
-  assert (Hnot : ~ In (k_id r) (unresolved_vtypes validator_keys actual_schema)).
-  { intros Hi. apply Hk. pose proof vtypes_known as H. rewrite forallb_forall in H. apply memN_In, H, Hi. }
-  destruct (str_eqb (v_base vt) T_STRING) eqn:Eb; [left; reflexivity|]. right.
-  destruct (str_eqb (v_base vt) T_LIST) eqn:El.
-  - left. split; [reflexivity|].
-    destruct (v_member vt) as [m|] eqn:Emm.
-    + destruct (resolve validator_keys m) as [k|] eqn:Er; [exists m, k; split; [reflexivity|exact Er]|].
-      exfalso; apply Hnot; unfold unresolved_vtypes; apply in_flat_map; exists r; (split; [exact Hr|]).
-      rewrite Hv, Hm, He, Eb, El, Emm, Er. left; reflexivity.
-    + exfalso; apply Hnot; unfold unresolved_vtypes; apply in_flat_map; exists r; (split; [exact Hr|]).
-      rewrite Hv, Hm, He, Eb, El, Emm. left; reflexivity.
-  - right. destruct (resolve validator_keys (v_base vt)) as [k|] eqn:Er; [exists k; reflexivity|].
-    exfalso; apply Hnot; unfold unresolved_vtypes; apply in_flat_map; exists r; (split; [exact Hr|]).
-    rewrite Hv, Hm, He, Eb, El, Er. left; reflexivity.
+  intros Hr Hv Hm He.
+  pose proof (flat_map_nil_inv _ _ r vtypes_none Hr) as H. cbv beta in H. rewrite Hv, Hm, He in H.
+  destruct (str_eqb (v_base vt) T_STRING); [left; reflexivity|]. right.
+  destruct (str_eqb (v_base vt) T_LIST).
+  - left. split; [reflexivity|]. destruct (v_member vt) as [m|]; [|discriminate].
+    exists m. split; [reflexivity|]. destruct (type_resolves validator_keys m); [reflexivity|discriminate].
+  - right. destruct (type_resolves validator_keys (v_base vt)); [reflexivity|discriminate].
 Qed.
+
+(* every declared enumeration is what validate_value_type tests: membership decides *)
+Lemma enumerations_enforced r vt en :
+  In r actual_schema -> k_vtype r = Some vt -> v_enum vt = Some en ->
+  forall prim keys v, validate_value_type prim keys v vt = if mem_str v en then ok else Err NOT_VALID.
+Proof.
+  intros Hr Hv He prim keys v.
+  pose proof (flat_map_nil_inv _ _ r enums_none Hr) as H. cbv beta in H. rewrite Hv, He in H.
+  unfold validate_value_type. destruct (v_maxlen vt) as [n|]; [discriminate|]. rewrite He. reflexivity.
+Qed.
+
+Lemma find_row_In S c r : find_row S c = Some r -> In r S.
+Proof. unfold find_row. intros H. apply find_some in H as [H _]. exact H. Qed.
 
 Lemma actual_plain_av : plain_av actual_schema.
 Proof.
-  intros c r Hrow Hav. unfold find_row in Hrow. apply find_some in Hrow as [Hin _].
-  pose proof av_plain as H. unfold av_rows_plain in H. rewrite forallb_forall in H. specialize (H r Hin).
+  intros c r Hrow Hav. apply find_row_In in Hrow.
+  pose proof av_plain as H. unfold av_rows_plain in H. rewrite forallb_forall in H. specialize (H r Hrow).
   change (s2l "saml.AttributeValueBase") with V_AVB in H. rewrite Hav in H.
   destruct (k_attrs r); [|discriminate]. destruct (k_children r); [|discriminate]. split; reflexivity.
 Qed.
+
+(* ---- on the regenerated tables no typed value escapes through an unresolvable type:
+   a truthy attribute whose declared type name names a validator that refuses it is a
+   violation in the sense of C13_rejects (the `resolve = Some k` premise is discharged) *)
+Lemma typed_attr_bad_actual prim r a t c0 v' :
+  In r actual_schema -> In a (k_attrs r) -> a_type a = TN t ->
+  (forall k, resolve validator_keys t = Some k -> prim k (c0 :: v') = false) ->
+  typed_bad prim validator_keys actual_schema a (c0 :: v').
+Proof.
+  intros Hr Ha Ht Hp. pose proof (types_resolve r a Hr Ha) as H. rewrite Ht in H.
+  apply type_resolves_spec in H as [k [Hk _]]. unfold typed_bad. rewrite Ht. exists k. split; [exact Hk|apply Hp; exact Hk].
+Qed.
+
+Lemma enum_attr_bad_actual prim r a c rt vt en v :
+  In r actual_schema -> In a (k_attrs r) -> a_type a = TC c -> find_row actual_schema c = Some rt ->
+  k_vtype rt = Some vt -> v_enum vt = Some en -> mem_str v en = false ->
+  typed_bad prim validator_keys actual_schema a v.
+Proof.
+  intros Hr Ha Ht Hrt Hvt He Hm. unfold typed_bad. rewrite Ht. exists rt. split; [exact Hrt|]. rewrite Hvt.
+  pose proof (flat_map_nil_inv _ _ rt enums_none (find_row_In _ _ _ Hrt)) as H. cbv beta in H. rewrite Hvt, He in H.
+  split; [destruct (v_maxlen vt); [discriminate|reflexivity]|]. left. exists en. split; assumption.
+Qed.
+
+(* ---- the non-vacuity examples (regenerated from real objects) *)
+Definition ex_tab : list (str * str * bool) := [(s2l "pv:ipaddress", s2l "192.0.2.7", true)].
+Definition ex_prim : str -> str -> bool := prim_of ex_tab.
+Definition ex_goodb := goodb ex_prim validator_keys actual_schema x_xsi_nil m_subject m_attribute_statement m_statement
+  m_authn_statement m_authz_decision_statement m_one_time_use m_proxy_restriction m_authn_context_decl
+  m_authn_context_decl_ref m_address m_dns_name.
+Definition ex_has_violation := has_violation ex_prim validator_keys actual_schema.
+Definition ex_valid_instance := valid_instance ex_prim validator_keys actual_schema x_xsi_nil m_subject m_attribute_statement m_statement
+  m_authn_statement m_authz_decision_statement m_one_time_use m_proxy_restriction m_authn_context_decl
+  m_authn_context_decl_ref m_address m_dns_name.
+Definition depth_ge2 (i : inst) : bool :=      (* the violation is not at the root *)
+  match i with
+  | I c a t K xa xe => match find_row actual_schema c with
+                       | Some r => negb (node_violationb ex_prim validator_keys actual_schema r a t K)
+                       | None => false end
+  | INone => false
+  end.
+
+Lemma examples_valid_good : c13_ex_valid <> [] /\ forallb ex_goodb c13_ex_valid = true.
+Proof. split; [discriminate|vm_compute; reflexivity]. Qed.
+Lemma examples_violated :
+  c13_ex_violated <> [] /\ forallb (fun i => ex_has_violation i && depth_ge2 i) c13_ex_violated = true.
+Proof. split; [discriminate|vm_compute; reflexivity]. Qed.
+Lemma examples_outcomes :
+  forallb (fun i => is_ok (ex_valid_instance i)) c13_ex_valid = true /\
+  forallb (fun i => negb (is_ok (ex_valid_instance i))) c13_ex_violated = true.
+Proof. split; vm_compute; reflexivity. Qed.
+
+(* ---- history: the code before the repairs proposed_fix/C13-1..3 (self-contained witnesses) *)
+Definition KEYS_BEFORE_FIX : list str :=
+  map s2l ["ID"; "NCName"; "dateTime"; "anyURI"; "nonNegativeInteger"; "PositiveInteger"; "boolean"; "unsignedShort";
+           "duration"; "base64Binary"; "integer"; "QName"; "anyType"; "string"]%string.
+Definition hist_prim : str -> str -> bool := prim_of [].
+
+(* C13-1: a VALID value of a declared type was refused with KeyError (here: the type name
+   positiveInteger of e.g. md IndexedEndpointType / ecp / idpdisc attributes, value 3;
+   likewise the type name None, NMTOKEN, unsignedByte, datetime, md:entityIDType) *)
+Lemma valid_before_fix_refuted :
+  exists typs v, typs <> [] /\
+    forallb (fun typ => match valid_before_fix hist_prim KEYS_BEFORE_FIX typ v with Err e => str_eqb e KEY_ERROR | Ok _ => false end) typs = true /\
+    forallb (fun typ => is_ok (valid hist_prim validator_keys typ v)) typs = true.
+Proof.
+  exists (map s2l ["positiveInteger"; "None"; "NMTOKEN"; "NMTOKENS"; "unsignedByte"; "datetime"; "md:entityIDType";
+                   "mdui:listOfStrings"; "unsignedInt"; "unsignedLong"; "a:b:integer"]%string), (s2l "3").
+  split; [discriminate|]. split; vm_compute; reflexivity.
+Qed.
+(* ... and a refused value went unnoticed behind the same KeyError; now it is NotValid *)
+Lemma invalid_before_fix_keyerror :
+  valid_before_fix hist_prim KEYS_BEFORE_FIX (s2l "positiveInteger") (s2l "0") = Err KEY_ERROR /\
+  valid hist_prim validator_keys (s2l "positiveInteger") (s2l "0") = Err NOT_VALID /\
+  valid hist_prim validator_keys (s2l "unsignedByte") (s2l "256") = Err NOT_VALID /\
+  valid hist_prim validator_keys (s2l "NMTOKEN") (s2l "a b") = Err NOT_VALID.
+Proof. repeat split; vm_compute; reflexivity. Qed.
+
+(* C13-2: an enumeration over a base other than the literal string: a value outside it was
+   accepted (base xs:anyURI), a value inside it raised KeyError (base xs:NMTOKEN) *)
+Lemma enum_before_fix_refuted :
+  (exists vt en v, v_enum vt = Some en /\ mem_str v en = false /\
+     validate_value_type_before_fix hist_prim KEYS_BEFORE_FIX v vt = ok /\
+     validate_value_type hist_prim validator_keys v vt = Err NOT_VALID) /\
+  (exists vt en v, v_enum vt = Some en /\ mem_str v en = true /\
+     validate_value_type_before_fix hist_prim KEYS_BEFORE_FIX v vt = Err KEY_ERROR /\
+     validate_value_type hist_prim validator_keys v vt = ok).
+Proof.
+  split.
+  - exists (VT (s2l "xs:anyURI") (Some [s2l "urn:a"; s2l "urn:b"]) None None), [s2l "urn:a"; s2l "urn:b"], (s2l "urn:c").
+    repeat split; vm_compute; reflexivity.
+  - exists (VT (s2l "xs:NMTOKEN") (Some [s2l "true"; s2l "false"]) None None), [s2l "true"; s2l "false"], (s2l "true").
+    repeat split; vm_compute; reflexivity.
+Qed.
+
+(* C13-3: the old pattern of valid_domain_name wants the literal text { 1 } in the name *)
+Definition HOSTS : list str := map s2l ["idp.example.org"; "localhost"; "sp-1.example.org:8443"; "EXAMPLE.ORG"]%string.
+Definition NOT_HOSTS : list str :=
+  map s2l ["x y"; "-"; "a..b"; ".a"; "a."; "a-"; "a:"; "a:123456"; "a:1:2"; "a/b"; "a.{ 1 }b.com"; "host_name"]%string ++ [[]; s2l "a.b" ++ [10]].
+Lemma domain_before_fix_refuted :
+  forallb (fun h => negb (prim_domain_before_fix h)) HOSTS = true /\ prim_domain_before_fix (s2l "a.{ 1 }b.com") = true.
+Proof. split; vm_compute; reflexivity. Qed.
+Lemma domain_after_fix : forallb prim_domain HOSTS = true /\ forallb (fun h => negb (prim_domain h)) NOT_HOSTS = true.
+Proof. split; vm_compute; reflexivity. Qed.
